@@ -1055,6 +1055,77 @@ fn gen_c04(o: &mut Out, r: &mut Rng, d: &GDict, tier: &str) {
     }
 }
 
+fn gen_c17(o: &mut Out, r: &mut Rng, tier: &str) {
+    let thorough = tier == "thorough";
+    let t4 = ["u32", "i32", "enum", "f32", "time", "ipv4"];
+    let t8 = ["u64", "i64", "f64"];
+    for t in t4 {
+        // boundaries, walking ones / zeros, byte boundaries
+        let mut vals: Vec<u32> = vec![0, 1, 2, 0x7f, 0x80, 0xff, 0x100, 0xffff, 0x10000, 0xffffff, 0x1000000, 0x7ffffffe, 0x7fffffff, 0x80000000, 0x80000001, 0xfffffffe, 0xffffffff];
+        // calendar anchors of the Time type: 1970-01-01, 2036-02-07T06:28:15Z, the day before the 32-bit unix rollover
+        vals.extend([2208988799, 2208988800, 2208988801, 4294967295, 2085978496, 61505152, 61505151]);
+        // float classes: +-0, +-inf, quiet / signalling NaNs with payloads, subnormals
+        vals.extend([0x7f800000, 0xff800000, 0x7fc00000, 0x7fc00001, 0x7f800001, 0xffc00000, 0xffbfffff, 0x00000001, 0x007fffff, 0x00800000, 0x3f800000]);
+        for i in 0..32 {
+            vals.push(1u32 << i);
+            vals.push(!(1u32 << i));
+        }
+        for _ in 0..(if thorough { 20000 } else { 2000 }) {
+            vals.push(r.next() as u32);
+        }
+        for v in vals {
+            o.case(&format!("fx {}", t));
+            o.line(&format!("fx {} {}", t, hex(&v.to_be_bytes())));
+        }
+        if thorough {
+            // all 2^32 values: 16 ranges of 2^28, one checksum per 2^20-value block
+            for k in 0..16u64 {
+                o.case(&format!("sweep {} range {}", t, k));
+                o.line(&format!("sweep {} {} {} {}", t, k << 28, 1u64 << 28, 1u64 << 20));
+            }
+        } else {
+            // 2^20 values: 16 random aligned blocks of 2^16, plus the blocks around the boundaries
+            let mut blocks: Vec<u64> = (0..12).map(|_| r.below(1 << 16)).collect();
+            blocks.extend([0, 0x7fff, 0x8000, 0xffff]);
+            for b in blocks {
+                o.case(&format!("sweep {} block {:#x}", t, b << 16));
+                o.line(&format!("sweep {} {} {} {}", t, b << 16, 1u64 << 16, 1u64 << 12));
+            }
+        }
+    }
+    for t in t8 {
+        let mut vals: Vec<u64> = vec![0, 1, 0xff, 0x100, 0xffffffff, 0x100000000, 0x7fffffffffffffff, 0x8000000000000000, 0x8000000000000001, 0xfffffffffffffffe, 0xffffffffffffffff];
+        vals.extend([0x7ff0000000000000, 0xfff0000000000000, 0x7ff8000000000000, 0x7ff0000000000001, 0x7ff8000000000001, 0xfff7ffffffffffff, 1, 0x000fffffffffffff, 0x0010000000000000]);
+        for i in 0..64 {
+            vals.push(1u64 << i);
+            vals.push(!(1u64 << i));
+        }
+        for i in 1..8 {
+            vals.push((1u64 << (8 * i)) - 1);
+            vals.push(1u64 << (8 * i));
+        }
+        for _ in 0..(if thorough { 1 << 20 } else { 20000 }) {
+            vals.push(r.next());
+        }
+        for v in vals {
+            o.case(&format!("fx {}", t));
+            o.line(&format!("fx {} {}", t, hex(&v.to_be_bytes())));
+        }
+    }
+    // IPv6 (16 octets) rides along: boundaries and a sample
+    for i in 0..(if thorough { 20000 } else { 2000 }) {
+        let v: u128 = match i {
+            0 => 0,
+            1 => 1,
+            2 => u128::MAX,
+            3 => 0xffff_7f00_0001,
+            _ => (r.next() as u128) << 64 | r.next() as u128,
+        };
+        o.case("fx ipv6");
+        o.line(&format!("fx ipv6 {}", hex(&v.to_be_bytes())));
+    }
+}
+
 pub fn generate(family: &str, seed: u64, tier: &str, extra: &[String], w: &mut dyn Write) {
     let mut r = Rng::new(seed ^ family.bytes().fold(0u64, |a, b| a.wrapping_mul(131).wrapping_add(b as u64)));
     let thorough = tier == "thorough";
@@ -1176,6 +1247,7 @@ pub fn generate(family: &str, seed: u64, tier: &str, extra: &[String], w: &mut d
             emit_dict(o.w, &d0);
             gen_c03(&mut o, &mut r, &d0, tier);
         }
+        "c17" => gen_c17(&mut o, &mut r, tier),
         "c04" => {
             emit_dict(o.w, &d0);
             gen_c04(&mut o, &mut r, &d0, tier);
